@@ -10,6 +10,7 @@ Driver handlers for property C11 (ops the harness module `ops/c11.rs` emits).
     ops_union      A B      => obs(A) obs(B) obs(R) unchanged comm idemA idemB
     ops_union3     A B C    => obs(A) obs(B) obs(C) obs((A∪B)∪C) assoc
     ops_filter     D pred   => obs(D) obs(R) unchanged
+    ops_complement_dg D     => obs(D) order nverts size digest loops maxend unchanged invol   (large `al` only)
 
 `obs` = `[order [vertices] [arcs]]` as the REAL code shows it.  The model recomputes the whole
 output (correspondence); the oracle evaluates the set definitions of C11 on the observed
@@ -156,7 +157,19 @@ def panicOut : List V := [.a "panic"]
 
 def descTags (d : GDesc) : List String :=
   [d.repr, sizeTag d.order] ++
-    (if d.repr == "am" && d.verts != List.range d.order then ["sparse-ids"] else [])
+    (if d.repr == "am" && d.verts != List.range d.order then ["sparse-ids"] else []) ++
+    (if d.verts.any (fun v => v ≥ 2 ^ 62) then ["xid"] else [])
+
+/-- Structured coincidences between two key sets that are NOT the same set. -/
+def coincideTags (a b : GDesc) : List String :=
+  if a.repr != "am" || a.verts == b.verts then [] else
+  let sameSize := a.verts.length == b.verts.length
+  let sameMin := a.verts.head? == b.verts.head?
+  let sameMax := a.verts.getLast? == b.verts.getLast?
+  if sameSize && sameMin && sameMax then ["same-size-min-max"]
+  else if (sameSize && (sameMin || sameMax)) || (sameMin && sameMax) ||
+      a.verts.all b.verts.contains || b.verts.all a.verts.contains then ["partial-coincidence"]
+  else []
 
 def tTag (d : GDesc) (t : Nat) : List String :=
   if d.repr == "al" || d.repr == "am" then [if d.order > t then "rows>t" else "rows<=t"] else []
@@ -207,7 +220,8 @@ def hUnion : Handler := fun t args obs =>
     if a.repr != b.repr then none
     let tags := "union" :: descTags a ++ tTag (if a.order ≥ b.order then a else b) t ++
       [if a.order == b.order then "eq-order" else "diff-order"] ++
-      (if a.repr == "am" then [if a.verts == b.verts then "same-keys" else "other-keys"] else [])
+      (if a.repr == "am" then [if a.verts == b.verts then "same-keys" else "other-keys"] else []) ++
+      coincideTags a b
     let nt := (a.order ≥ 2 || b.order ≥ 2) && !(a.arcs.isEmpty && b.arcs.isEmpty)
     let model : List V :=
       match build a, build b with
@@ -302,7 +316,65 @@ def hFilter : Handler := fun _ args obs =>
     pure (classify obs model propFail (nt && applicable [d]) (tags ++ inapp [d]))
   | _ => none
 
+/-! ## Large `AdjacencyList::complement`: summary instead of the dense result -/
+
+def digestK : Nat := 1000003
+
+/-- `(size, digest, loops, maxend)` of the complement rows `complementRowSeq g u`, `u = 0..order`,
+streamed row by row (row `u` of the operand is looked up once, not once per candidate `v`). -/
+def summarizeComplement (g : AdjList) : Nat × Nat × Nat × Option Nat :=
+  let all := List.range g.order
+  (g.rows.zipIdx).foldl (fun (acc : Nat × Nat × Nat × Option Nat) (x : List Nat × Nat) =>
+    let u := x.2
+    let row := all.filter (fun v => v != u && !x.1.contains v)   -- = complementRowSeq g u
+    row.foldl (fun (acc : Nat × Nat × Nat × Option Nat) v =>
+      (acc.1 + 1, acc.2.1 + u * digestK + v, acc.2.2.1 + (if u == v then 1 else 0),
+        some (match acc.2.2.2 with | none => max u v | some m => max m (max u v)))) acc) (0, 0, 0, none)
+
+def hComplementDg : Handler := fun t args obs =>
+  match args with
+  | [dv] => do
+    let d ← GDesc.parse dv
+    if d.repr != "al" then none
+    let n := d.order
+    let tags := ["complement", "al", sizeTag n] ++ tTag d t ++ (if n ≥ 256 * t then ["n>=256t"] else [])
+    let ok := applicable [d]
+    -- model: by `complementAL_threads_def` (Thm/C11) the result of `complementAL g t` is, for every
+    -- `t ≥ 1`, the row-wise set expression `complementRowSeq`; the involution flag is `true` by
+    -- `statementStructural`.  (Evaluating `complementAL` itself on the dense result is quadratic per row.)
+    let model : List V :=
+      match buildAL d with
+      | none => panicOut
+      | some g =>
+        if t = 0 then panicOut else
+        let (size, dig, loops, maxend) := summarizeComplement g
+        [obsAL g, V.ofNat g.order, V.ofNat g.order, V.ofNat size, V.ofNat dig, V.ofNat loops,
+          V.ofOptNat maxend, V.ofBool true, V.ofBool true]
+    -- oracle: closed forms over the OBSERVED operand, independent of the model
+    let propFail : Option String :=
+      if !ok then none else
+      match obs with
+      | [od, ro, rnv, rsize, rdig, rloops, rmax, unch, invol] =>
+        match Obs.parse od, V.nat? ro, V.nat? rnv, V.nat? rsize, V.nat? rdig, V.nat? rloops, V.opt? V.nat? rmax with
+        | some od, some ro, some rnv, some rsize, some rdig, some rloops, some rmax =>
+          let n := od.order
+          let A := (pset od.arcs).toList
+          let allSum := n * (n - 1) / 2 * (n - 1) * (digestK + 1)
+          let aSum := A.foldl (fun s a => s + a.1 * digestK + a.2) 0
+          firstFail [
+            check (ro == n && rnv == n) s!"complement: vertex set changed (order {ro}, {rnv} vertices, operand order {n})",
+            check (rloops == 0) "result has a self-loop",
+            check (match rmax with | none => true | some m => m < ro) "result has an arc endpoint outside its vertex set",
+            check (rsize + A.length == n * (n - 1)) s!"complement: {rsize} arcs, but |V|(|V|-1) - |A| = {n * (n - 1) - A.length}",
+            check (rdig + aSum == allSum) "complement: the arc set is not the set of non-arcs (digest differs)",
+            flagTrue "operand unchanged" unch, flagTrue "complement o complement == id" invol ]
+        | _, _, _, _, _, _, _ => some "unparsable observation"
+      | _ => some "complement did not return (panic) on a valid digraph"
+    pure (classify obs model propFail (ok && n ≥ 2) (tags ++ inapp [d]))
+  | _ => none
+
 def handlers : List (String × Handler) := [
+  ("ops_complement_dg", hComplementDg),
   ("ops_complement", hUnary "complement" complementG oracleComplement),
   ("ops_converse", hUnary "converse" (fun _ => converseG) oracleConverse),
   ("ops_union", hUnion),
